@@ -75,6 +75,8 @@ func genJ(r *rand.Rand, depth int) interface{} {
 	k := r.Intn(100)
 	if depth <= 0 && k >= 60 {
 		k = r.Intn(60)
+	} else if depth > 0 && k < 60 && r.Intn(3) == 0 {
+		k = 60 + r.Intn(40) // containers a bit more often than leaves while depth remains
 	}
 	switch {
 	case k < 10:
@@ -98,7 +100,7 @@ func genJ(r *rand.Rand, depth int) interface{} {
 	case k < 60:
 		return ljStrs[r.Intn(len(ljStrs))]
 	case k < 80:
-		n := r.Intn(5)
+		n := 1 + r.Intn(6)
 		if r.Intn(8) == 0 {
 			n = 0
 		}
@@ -108,7 +110,7 @@ func genJ(r *rand.Rand, depth int) interface{} {
 		}
 		return xs
 	default:
-		n := r.Intn(5)
+		n := 1 + r.Intn(6)
 		if r.Intn(8) == 0 {
 			n = 0
 		}
@@ -777,6 +779,7 @@ type runResult struct {
 	detail  string // canonical JSON of the table, or the error text (never emitted raw)
 	inTime  bool
 	panicv  string
+	elapsed time.Duration
 }
 
 // runBounded = what ingress.go / custom_network_provider.go do with a script
@@ -814,7 +817,8 @@ func runBounded(obj map[string]interface{}, script string) runResult {
 	}()
 	select {
 	case r := <-done:
-		r.inTime = time.Since(start) <= luaWallBound
+		r.elapsed = time.Since(start)
+		r.inTime = r.elapsed <= luaWallBound
 		return r
 	case <-time.After(luaWallBound + 200*time.Millisecond):
 		return runResult{outcome: "hung", inTime: false}
@@ -834,9 +838,26 @@ type scriptCase struct {
 // runScripts runs the cases on a worker pool and emits them in input order.
 func runScripts(c *Ctx, cases []scriptCase) {
 	res := make([]runResult, len(cases))
+	// If os.exit is reachable a script can end this very process; such scripts are
+	// not run but reported as a process crash (C16.no_panic fails, with the script as witness).
+	exitReachable := false
+	if names, err := sandboxGlobals(); err == nil {
+		for _, n := range names {
+			if n == "os.exit" {
+				exitReachable = true
+			}
+		}
+	}
+	skip := make([]bool, len(cases))
+	for i, sc := range cases {
+		if exitReachable && strings.Contains(sc.script, "exit") {
+			skip[i] = true
+			res[i] = runResult{outcome: "process-exit", inTime: true, panicv: "os.exit reachable: the script would end the process"}
+		}
+	}
 	// stdin cases first, one at a time (os.Stdin is process-global)
 	for i, sc := range cases {
-		if sc.stdin {
+		if sc.stdin && !skip[i] {
 			res[i] = runWithBlockedStdin(sc.script)
 		}
 	}
@@ -853,7 +874,7 @@ func runScripts(c *Ctx, cases []scriptCase) {
 		}()
 	}
 	for i, sc := range cases {
-		if !sc.stdin {
+		if !sc.stdin && !skip[i] {
 			ch <- i
 		}
 	}
@@ -869,7 +890,10 @@ func runScripts(c *Ctx, cases []scriptCase) {
 			if len(d) > 160 {
 				d = d[:160]
 			}
-			fmt.Fprintf(os.Stderr, "C16DEBUG %s %s %q\n", sc.class, res[i].outcome, d)
+			fmt.Fprintf(os.Stderr, "C16DEBUG %s %s %dms %q\n", sc.class, res[i].outcome, res[i].elapsed.Milliseconds(), d)
+			if res[i].elapsed > 1500*time.Millisecond || res[i].outcome == "hung" {
+				fmt.Fprintf(os.Stderr, "C16SLOW %dms %q\n", res[i].elapsed.Milliseconds(), sc.script)
+			}
 		}
 		c.Emit("run", in, res[i].json())
 	}
@@ -1289,9 +1313,10 @@ func (g *sgen) expr(t byte, depth int) string {
 		case 7:
 			return "type(" + g.expr(g.anyType(), depth-1) + ")"
 		case 8:
-			return "(json.encode(" + g.expr('T', depth-1) + ") or \"\")"
+			// truncated: json.encode(t) stored back into t would grow exponentially (memory bomb)
+			return "string.sub(json.encode(" + g.expr('T', depth-1) + ") or \"\", 1, 300)"
 		default:
-			return "(string.gsub(string.sub(" + g.expr('S', depth-1) + ", 1, 40), " + luaQuote(g.pick([]string{"%w", "a", "%s+", ".", "(%d)"})) + ", " + g.expr('S', depth-1) + "))"
+			return "(string.gsub(string.sub(" + g.expr('S', depth-1) + ", 1, 40), " + luaQuote(g.pick([]string{"%w", "a", "%s+", ".", "(%d)"})) + ", string.sub(" + g.expr('S', depth-1) + ", 1, 100)))"
 		}
 	case 'B':
 		if leaf || k < 35 {
@@ -1495,7 +1520,7 @@ func genScript(r *rand.Rand) string {
 					break
 				}
 				if t == 'T' && r.Intn(3) > 0 {
-					parts = append(parts, fmt.Sprintf("k%d = (json.encode(%s) or \"?\")", i, v))
+					parts = append(parts, fmt.Sprintf("k%d = string.sub(json.encode(%s) or \"?\", 1, 300)", i, v))
 				} else {
 					parts = append(parts, fmt.Sprintf("k%d = %s", i, v))
 				}
@@ -1533,7 +1558,7 @@ func runLuaJSON(c *Ctx) {
 	}
 	nrt := n * 45 / 100
 	for i := 0; i < nrt; i++ {
-		depth := 1 + r.Intn(4)
+		depth := 1 + r.Intn(5)
 		switch r.Intn(10) {
 		case 0, 1:
 			m := genJ(r, depth)
@@ -1548,7 +1573,16 @@ func runLuaJSON(c *Ctx) {
 			}
 			emitRoundtrip(c, "luajson", m)
 		default:
-			emitRoundtrip(c, "direct", genJ(r, depth))
+			v := genJ(r, depth)
+			for tries := 0; tries < 3 && r.Intn(10) > 0; tries++ { // mostly containers at the top
+				switch v.(type) {
+				case []interface{}, map[string]interface{}:
+					tries = 3
+				default:
+					v = genJ(r, depth)
+				}
+			}
+			emitRoundtrip(c, "direct", v)
 		}
 	}
 	// encoder on arbitrary Lua tables ----------------------------------------
